@@ -491,9 +491,37 @@ def s2b(ctx, rep):
             "(their ranks are uninitialised memory: indices repeat or fall outside the layer)")
 
 
+def s4c(ctx, rep):
+    """'among all trials recorded at that rung': what a rung has recorded is only ever added to - no method of the scheduler or its
+    brackets removes an entry from a rung's record (a stopped or removed trial stays part of the population later arrivals are
+    ranked against)"""
+    from ..engine import flows_into
+    P = ctx.P
+    mod = [f for f in P.functions.values() if f.module.relpath.endswith("multiobjective/moasha.py")]
+    bad = []
+    n = 0
+    for f in sorted(mod, key=lambda f_: f_.qualname):
+        def from_rungs(e):
+            return bool(flows_into(f, e, lambda y: isinstance(y, ast.Attribute) and y.attr == "_rungs"))
+        for x in walk_shallow(f.node):
+            if isinstance(x, ast.Call) and isinstance(x.func, ast.Attribute) and x.func.attr in ("pop", "popitem", "clear", "remove", "discard", "__delitem__") \
+                    and from_rungs(x.func.value):
+                bad.append((f, x))
+            if isinstance(x, ast.Delete) and any(isinstance(t, ast.Subscript) and from_rungs(t.value) for t in x.targets):
+                bad.append((f, x))
+            if isinstance(x, ast.Attribute) and x.attr == "_rungs":
+                n += 1
+    rep.put(not bad, "S4", "who_may_write", "MOASHA: entries recorded at a rung are never removed", bad[0][0] if bad else P.cls("MOASHA"), bad[0][1] if bad else None,
+            f"{n} uses of the rung records", f"`{U(bad[0][1])[:60] if bad else ''}` removes an entry from a rung's record: a trial reaching that rung later is "
+            "ranked among the survivors only, not among all trials recorded there - it is stopped although it is within the best 1/reduction_factor")
+    if n < 3:
+        raise AnchorError("moasha.py: rung records (`_rungs`) not found")
+
+
 def run(ctx, rep, tier="quick"):
     s1(ctx, rep)
     s2(ctx, rep)
     s2b(ctx, rep)
     s3(ctx, rep)
     s4(ctx, rep)
+    s4c(ctx, rep)
